@@ -6,7 +6,7 @@ from .gen import strings, case, rand_string
 
 HARNESS = dict(name="fmt", source="fmt.cpp")
 
-APIS = ["pct", "args", "stream", "conv", "args+stream", "args+conv", "pct+more", "copy+more"]
+APIS = ["pct", "args", "stream", "conv", "args+stream", "args+conv", "pct+more", "copy+more", "fork+more"]
 
 
 def tok(t, text):
